@@ -248,8 +248,10 @@ def run_known_corpus(ctx):
     fails the way the finding says, that is the KNOWN-FINDING; any other
     failure is a violation."""
     n = 0
-    entries = [("known", x) for x in sorted(os.listdir(os.path.join(lib.VERIF, "corpus", "known")))] + \
-              [("regress", x) for x in sorted(os.listdir(os.path.join(lib.VERIF, "corpus", "regress")))]
+    def ls(kind):
+        d = os.path.join(lib.VERIF, "corpus", kind)
+        return sorted(x for x in os.listdir(d) if os.path.isdir(os.path.join(d, x))) if os.path.isdir(d) else []
+    entries = [("known", x) for x in ls("known")] + [("regress", x) for x in ls("regress")]
     for kind, name in entries:
         root = os.path.join(lib.VERIF, "corpus", kind)
         meta = json.load(open(os.path.join(root, name, "meta.json")))
